@@ -112,6 +112,26 @@ pub fn main(tier: Tier, _replay: Option<String>) -> i32 {
                     }
                 }
             }
+            // (b') positional projection: expanding placeholders by their weight, the lite block's
+            // entries stand where the full block's transactions stand
+            {
+                let mut pos = 0usize;
+                let mut ok = true;
+                for e in lite.transactions.iter() {
+                    if e.transaction_type == TransactionType::SPV {
+                        pos += e.txs_replacements as usize;
+                    } else {
+                        if pos >= full.transactions.len() || full.transactions[pos].serialize_for_net() != e.serialize_for_net() {
+                            ok = false;
+                            break;
+                        }
+                        pos += 1;
+                    }
+                }
+                if !ok || pos != full.transactions.len() {
+                    r.violate("projection-order-broken", format!("n={} {} ({}): lite block entries do not line up with the full block's transaction positions", n, label, cls), ctx.clone());
+                }
+            }
             // (d) commitment recomputable from the lite block (before the wire)
             let root_before = MerkleTree::generate(&lite.transactions).map(|t| t.get_root_hash());
             let omitted = lite.transactions.iter().any(|t| t.transaction_type == TransactionType::SPV);
